@@ -16,6 +16,20 @@ from ncclient import manager
 from ncclient.xml_ import new_ele, sub_ele
 from ncclient.transport.errors import TransportError
 from ncclient.operations.errors import TimeoutExpiredError
+from ncclient.operations import rpc as _rpcmod
+
+# The lock-step runner replaces the module name `rpc.uuid4` by a counter for the duration of a history.  Runs over real
+# transports must use the library's OWN id generator (whatever `rpc.uuid4` was when the library was imported).
+from impl.session_run import LIB_UUID4 as _LIB_UUID4      # noqa: E402
+
+
+def connect_restoring_ids(fn):
+    def wrapped(*a, **k):
+        _rpcmod.uuid4 = _LIB_UUID4
+        return fn(*a, **k)
+    wrapped.__name__ = fn.__name__
+    wrapped.__doc__ = fn.__doc__
+    return wrapped
 
 NOTIF_NS = 'urn:ietf:params:xml:ns:netconf:notification:1.0'
 CERT_DIR = '/repo/test/unit/transport/certs'
@@ -118,6 +132,7 @@ def cut(rng, data, mode):
     return out
 
 
+@connect_restoring_ids
 def run_traffic(sc):
     """Scenario keys: transport, profile, server_caps, threads, per_thread, window, notifs, seg, timeout,
     fault: None | {'kind': 'close-after-requests', 'n': k} | {'kind': 'close-at-offset', 'offset': k}
@@ -337,6 +352,7 @@ def run_traffic(sc):
     return res
 
 
+@connect_restoring_ids
 def run_sized_frames(sc):
     """Messages whose FRAMED length is an exact number of octets (multiples of the transport read size and their neighbours), each
     sent in one piece and followed by silence, over a real transport: every one must be delivered promptly and intact."""
@@ -398,6 +414,7 @@ class _CountingListener:
     pass
 
 
+@connect_restoring_ids
 def run_lifecycle(sc):
     """Close / failed-connect / leak scenarios.  sc['mode'] in
        'close'           connect, optional in-flight request from another thread, close_session / with-block (+exception)
